@@ -289,6 +289,12 @@ ZIsPrime(a) ==
    ELSE IF \E i \in 1..13 : PDivMod(n, PFromInt(MRBases[i]))[2] = <<>> THEN FALSE
    ELSE \A i \in 1..13 : PStrong(n, MRBases[i])
 
+
+(* smallest prime strictly greater than a (a >= 0) *)
+RECURSIVE PNextPrimeFrom(_)
+PNextPrimeFrom(x) == IF ZIsPrime(POut(x)) THEN x ELSE PNextPrimeFrom(SAdd(x, SOne))
+ZNextPrime(a) == POut(PNextPrimeFrom(SAdd(PIn(a), SOne)))
+
 RECURSIVE PProd(_, _)       \* lo * (lo+1) * ... * hi for small ints
 PProd(lo, hi) == IF lo > hi THEN POne
                  ELSE IF lo = hi THEN PFromInt(lo)
